@@ -53,7 +53,7 @@ def _mk(nloops):
         c.modifies()
 
 
-for _k in (0, 1, 2, 3):
+for _k in (0, 1, 2, 3, 8):          # 8 = the real size of the loop table (every one of the 256 active / inactive patterns, either sample type)
     _mk(_k)
 
 
